@@ -249,9 +249,12 @@ func genBadDep(t *rapid.T) BadDep {
 	a1, a2 := genArchName(t, "a1"), genArchName(t, "a2")
 	p1, p2 := rapid.SampledFrom(profileNames).Draw(t, "p1"), rapid.SampledFrom(profileNames).Draw(t, "p2")
 	class := rapid.SampledFrom([]string{"unterminated-bracket", "unterminated-paren", "unterminated-profile", "unterminated-substvar",
-		"mixed-negation", "second-version", "second-arch-list", "unknown-operator-U1", "unknown-operator-U2", "two-names"}).Draw(t, "class")
+		"mixed-negation", "second-version", "second-arch-list", "unknown-operator-U1", "unknown-operator-U2", "two-names", "substvar-junk"}).Draw(t, "class")
 	var tail string
-	suffixOK := false // may a valid ", rel" follow the corruption?
+	// a valid ", rel" or " | alt" may follow every corruption: no construct of
+	// the grammar contains ',' or '|', so a closer further right belongs to a
+	// later relation and never terminates this one
+	suffixOK := true
 	switch class {
 	case "unterminated-bracket":
 		tail = rapid.SampledFrom([]string{
@@ -304,6 +307,14 @@ func genBadDep(t *rapid.T) BadDep {
 		bad := rapid.SampledFrom([]string{"==", "=>", "=<"}).Draw(t, "bad")
 		tail = name + " (" + bad + " " + ver + ")"
 		suffixOK = true
+	case "substvar-junk":
+		// a substvar is a whole alternative: nothing but ',' '|' or the end may follow it
+		other := genPkgName(t, "other")
+		tail = rapid.SampledFrom([]string{
+			"${" + name + "} " + other, "${" + name + "}${" + other + "}", "${" + name + "}" + other, "${" + name + "} ${" + other + "}",
+			"${" + name + "} (" + op + " " + ver + ")", "${" + name + "} [" + a1 + "]", "${" + name + "} <" + p1 + ">", "${" + name + "}:" + a1,
+			"${" + name + "}\n " + other,
+		}).Draw(t, "v")
 	default: // two-names
 		other := genPkgName(t, "other")
 		tail = rapid.SampledFrom([]string{
@@ -313,14 +324,14 @@ func genBadDep(t *rapid.T) BadDep {
 	}
 	text := prefix + tail
 	if suffixOK && rapid.Bool().Draw(t, "hasSuffix") {
-		text += ", " + renderDep(genDepAST(t, "suf", 2, 2, true), canonicalSpacer)
+		text += rapid.SampledFrom([]string{", ", ", ", ",", " | ", "|"}).Draw(t, "join") + renderDep(genDepAST(t, "suf", 2, 2, true), canonicalSpacer)
 	}
 	return BadDep{Text: text, Class: class}
 }
 
 var specC04Malformed = Register(&Spec[BadDep]{
 	Prop: "C04", Name: "malformed",
-	Rule: "one corruption of a valid canonical field, each its own class: closing ] ) > or } missing from the last construct so it runs to end of input; mixed negation in an arch list; a second (version) clause; a second [arch] list; an unknown operator not starting with '=' (U1: ~= != >< <> ~ ^ ...) or starting with '=' (U2: == => =<); two names separated only by blanks - optionally preceded (and where sound followed) by valid relations. Oracle: Parse returns (nil, error) and UnmarshalControl returns an error. Every case is non-trivial; distinct by text.",
+	Rule: "one corruption of a valid canonical field, each its own class: closing ] ) > or } missing from a construct (at the end of input, or followed by further valid relations or alternatives whose own closers must not be borrowed); a ${substvar} followed by anything but ',' '|' or the end (a name, a second substvar, a clause); mixed negation in an arch list; a second (version) clause; a second [arch] list; an unknown operator not starting with '=' (U1: ~= != >< <> ~ ^ ...) or starting with '=' (U2: == => =<); two names separated only by blanks - optionally preceded (and where sound followed) by valid relations. Oracle: Parse returns (nil, error) and UnmarshalControl returns an error. Every case is non-trivial; distinct by text.",
 	Check: func(c BadDep, r *Recorder) error {
 		r.Case(c.Text, true, "malformed:"+c.Class)
 		r.Sample(c)
